@@ -220,6 +220,15 @@ class Exec:
             raw = {"checked_mul": a[0].v * a[1].v, "checked_add": a[0].v + a[1].v, "checked_sub": a[0].v - a[1].v}[m.group(1)]
             ok = z3.And(raw >= 0, raw < 2 ** bits)
             return Val("enum", disc=z3.If(ok, 1, 0), payload={"Some": [Val("int", v=raw, bits=bits)]}, variant=None)
+        m = re.search(r"::(wrapping_mul|wrapping_add|wrapping_sub|saturating_add|saturating_mul|saturating_sub)$", callee)
+        if m:
+            bits = a[0].bits
+            lim = 2 ** bits
+            op = m.group(1)
+            raw = {"mul": a[0].v * a[1].v, "add": a[0].v + a[1].v, "sub": a[0].v - a[1].v}[op.split("_")[1]]
+            if op.startswith("wrapping"):
+                return Val("int", v=raw % lim, bits=bits)
+            return Val("int", v=z3.If(raw >= lim, lim - 1, z3.If(raw < 0, 0, raw)), bits=bits)
         if callee.endswith("::leading_zeros"):
             x, bits = a[0].v, a[0].bits
             e = z3.IntVal(bits)
